@@ -189,7 +189,7 @@ func runRace(in input) lib.Case {
 		for {
 			select {
 			case c := <-p.accepted:
-				c.Close()
+				closeBounded(c)
 				continue
 			default:
 			}
@@ -198,7 +198,7 @@ func runRace(in input) lib.Case {
 	}
 	mu.Lock()
 	for _, pe := range inboundEnds {
-		pe.conn.Close()
+		closeBounded(pe.conn)
 	}
 	mu.Unlock()
 	_ = preSends
